@@ -17,6 +17,18 @@ the outer Deferred is paused and a continuation is appended to the inner one; wh
 reaches the continuation it hands its result over (keeps None), un-pauses the outer one, which
 runs *nested* (recursion), and then goes on with its own remaining callbacks.
 
+Re-entrant family: callbacks may also ACT while they run - add a callback pair to their own (running)
+Deferred (explicitly supported: the loop picks it up after the current callback returns) or to another
+Deferred, pause / unpause / fire another Deferred (nested run, recursion on both sides); firing an
+already fired Deferred - from a callback or from the top level - must raise AlreadyCalledError and
+change nothing; `chainDeferred(e)` is the documented pair (e.callback, e.errback) whose result is
+None, or a Failure(AlreadyCalledError) if e has already fired.  Guards for actions (decided on the
+model run, replayed on the real run): an action may touch the running Deferred itself only with
+addCallbacks, and other Deferreds only if they are not in the middle of their own chain at that
+moment (the recursive and the iterative reading order the remaining callbacks differently there);
+unpause without a matching program pause is skipped; pausing the running Deferred is skipped (the
+docs do not say whether the rest of the current run stops).
+
 Guards (documented misuse or undocumented corners, decided on the model run and replayed
 identically on the real run by substituting a plain value for the returned Deferred):
   * a callback returning its own Deferred (never generated);
@@ -48,19 +60,25 @@ RULE = ("bounded-exhaustive: every canonical program (Deferreds named in order o
         "to the sizes in coverage.spaces; random: programs over 2..6 Deferreds and 6..22 operations "
         "from addCallback/addErrback/addBoth/addCallbacks x {value, raise, return Failure, pass "
         "through, return d_j}, pause/unpause, callback/errback anywhere, half of them followed by "
-        "firing/unpausing everything in random order.  A case is one program; it is distinct by its "
+        "firing/unpausing everything in random order; re-entrant family (alphabet R exhaustive + random over 2..5 "
+        "Deferreds, 5..14 operations): callbacks that additionally add callbacks to their own running Deferred or to "
+        "another one, pause/unpause/fire another Deferred (up to two levels of callbacks added by callbacks), "
+        "chainDeferred, firing already fired Deferreds.  A case is one program; it is distinct by its "
         "operation list and counted as non-trivial only if at least one callback really returned a "
-        "Deferred (waited on or result taken) in the model run.")
+        "Deferred (waited on or result taken), or a re-entrant action ran a nested chain / added to the running "
+        "Deferred / a chainDeferred pair fired, in the model run.")
 ASSUMPTIONS = [
     "trusted base: the ~110-line recursive Model in this module is the oracle of the documented chaining rules",
-    "callbacks do not themselves fire, pause or add callbacks to Deferreds (re-entrant mutation is out of scope)",
+    "re-entrant actions of callbacks are limited to the running Deferred (addCallbacks only) and to Deferreds not in the middle of their own chain; cancel() is C03's",
     "returns of a Deferred that is its own, already waits on the current one, or is on the interpreter's stack are replaced by plain values (documented misuse / undocumented corner)",
     "remaining callbacks are read from Deferred.callbacks (ids of user callbacks only; continuation entries are ignored)",
 ]
 SHARDS = {"quick": 4, "thorough": 16}
 FLOORS = {"ops_compared": 20000, "callback_events_compared": 10000, "chain_waits": 2000, "chain_result_taken": 1000,
           "handovers": 1000, "errback_side_runs": 1000, "substituted_returns": 20, "exhaustive_programs": 100000,
-          "random_programs": 5000, "model_handover_to_paused": 200}
+          "random_programs": 5000, "model_handover_to_paused": 200,
+          "reentrant_random_programs": 5000, "re_act_add_own": 5000, "re_act_add_other": 2000, "re_act_nested_runs": 3000,
+          "re_act_ace": 3000, "re_act_pause": 1000, "re_chain_fired": 3000, "re_chain_ace": 3000, "re_top_ace": 5000}
 READY = True
 
 KEY_STRAND = "paused-chainee-strands-inner-callbacks"
@@ -71,7 +89,7 @@ NORES = "NORESULT"
 # reference interpreter (no twisted)
 # ------------------------------------------------------------------------------------------------
 class _MD:
-    __slots__ = ("i", "called", "paused", "result", "cbs", "inchain")
+    __slots__ = ("i", "called", "paused", "result", "cbs", "inchain", "upause")
 
     def __init__(self, i):
         self.i = i
@@ -80,6 +98,7 @@ class _MD:
         self.result = NORES
         self.cbs = []  # ("cont", outer index) | (pid, cspec, espec); spec = None | (name, behaviour)
         self.inchain = 0
+        self.upause = 0  # pauses made by the program (not by waiting)
 
 
 def _isfail(r):
@@ -99,27 +118,88 @@ class Model:
         self.stack = []      # activations [deferred, stranded]
         self.touch = set()   # Deferreds touched by stranded work in the current operation
         self.paused_handovers = 0
-        self.st = {"waits": 0, "taken": 0, "handovers": 0, "eb_runs": 0, "sub_cycle": 0, "sub_inchain": 0, "depth": 0}
+        self.skips = set()   # callback names whose re-entrant action is not performed (guards)
+        self.st = {"waits": 0, "taken": 0, "handovers": 0, "eb_runs": 0, "sub_cycle": 0, "sub_inchain": 0, "depth": 0,
+                   "act_add_own": 0, "act_add_other": 0, "act_pause": 0, "act_unpause": 0, "act_fire": 0, "act_ace": 0,
+                   "act_skipped": 0, "act_nested_runs": 0, "chain_fired": 0, "chain_ace": 0, "top_ace": 0, "top_skipped": 0}
 
     # -- top-level operations -----------------------------------------------------------------
     def op(self, o):
+        """Returns None, "ACE" (the call must raise AlreadyCalledError and change nothing) or "skip"
+        (an unpause without a matching program pause: not performed on either side)."""
         self.touch = set()
         self.paused_handovers = 0
         k, d = o[0], self.ds[o[1]]
         if k == "add":
-            d.cbs.append(o[5])
-            if d.called:
-                self.run(d, False)
+            self.do_add(d, o[5], False)
+        elif k == "chain":
+            self.do_add(d, (None, ("chain", o[2]), ("chain", o[2])), False)
         elif k == "pause":
             d.paused += 1
+            d.upause += 1
         elif k == "unpause":
-            d.paused -= 1
-            if not d.paused and d.called:
-                self.run(d, False)
+            if not d.upause:
+                self.st["top_skipped"] += 1
+                return "skip"
+            self.do_unpause(d, False)
         else:
-            d.called = True
-            d.result = (("V", o[3]) if o[2] == "v" else ("F", o[3]))
-            self.run(d, False)
+            if d.called:
+                self.st["top_ace"] += 1
+                return "ACE"
+            self.do_fire(d, o[2], o[3], False)
+        return None
+
+    def do_add(self, d, item, stranded):
+        d.cbs.append(item)
+        if d.called:
+            self.run(d, stranded)
+
+    def do_unpause(self, d, stranded):
+        d.paused -= 1
+        d.upause -= 1
+        if not d.paused and d.called:
+            self.run(d, stranded)
+
+    def do_fire(self, d, kind, vid, stranded):
+        d.called = True
+        d.result = ("V", vid) if kind == "v" else ("F", vid)
+        self.run(d, stranded)
+
+    def act(self, d, name, a, stranded):
+        """A re-entrant action performed by the callback `name` running on d.  Guards: only the
+        running Deferred itself (addCallbacks) or Deferreds that are not in the middle of their own
+        chain may be touched; firing an already fired Deferred is always allowed (must raise)."""
+        k, t = a[0], self.ds[a[1]]
+        if k == "fire":
+            if t.called:
+                self.trace.append((name + "!", "ACE"))
+                self.flags.append(stranded)
+                self.st["act_ace"] += 1
+            else:
+                self.st["act_fire"] += 1
+                self.st["act_nested_runs"] += 1
+                self.do_fire(t, a[2], a[3], stranded)
+            return
+        if k == "add" and t is d:
+            self.st["act_add_own"] += 1
+            d.cbs.append(a[3])
+            return
+        if t.inchain or (k == "unpause" and not t.upause):
+            self.skips.add(name)
+            self.st["act_skipped"] += 1
+            return
+        if k == "add":
+            self.st["act_add_other"] += 1
+            if t.called and not t.paused:
+                self.st["act_nested_runs"] += 1
+            self.do_add(t, a[3], stranded)
+        elif k == "pause":
+            self.st["act_pause"] += 1
+            t.paused += 1
+            t.upause += 1
+        else:
+            self.st["act_unpause"] += 1
+            self.do_unpause(t, stranded)
 
     def waits_on(self, r, d):
         seen = 0
@@ -162,11 +242,30 @@ class Model:
             spec = item[2] if _isfail(d.result) else item[1]
             if spec is None:
                 continue
-            name, beh = spec
+            if spec[0] == "chain":
+                # chainDeferred: the pair (e.callback, e.errback); both return None
+                e = self.ds[spec[1]]
+                if e.called:
+                    self.st["chain_ace"] += 1
+                    d.result = ("F", "ACE")
+                else:
+                    self.st["chain_fired"] += 1
+                    e.called = True
+                    e.result = d.result
+                    if act[1]:
+                        self.touch.add(e.i)
+                    self.run(e, act[1])
+                    d.result = None
+                continue
+            name, beh, reent = spec
             self.trace.append((name, d.result))
             self.flags.append(act[1])
             if _isfail(d.result):
                 self.st["eb_runs"] += 1
+            if reent is not None:
+                inp = d.result
+                self.act(d, name, reent, act[1])
+                d.result = inp
             if beh == "val":
                 d.result = ("V", name)
             elif beh == "raise" or beh == "fail":
@@ -196,45 +295,72 @@ class Model:
         self.stack.pop()
 
     def snap(self):
-        return [(d.called, d.paused, d.result, tuple(it[0] for it in d.cbs if it[0] != "cont")) for d in self.ds]
+        return [(d.called, d.paused, d.result, tuple(it[0] for it in d.cbs if it[0] not in ("cont", None))) for d in self.ds]
 
 
 # ------------------------------------------------------------------------------------------------
 # programs
 # ------------------------------------------------------------------------------------------------
+def _tup(x):
+    return tuple(_tup(y) for y in x) if isinstance(x, (list, tuple)) else x
+
+
+def _spec(name, b, pid_of, pid):
+    """behaviour b = plain | ("do", plain, action); action = ("add", t, kind, bc, be) | ("pause", t) |
+    ("unpause", t) | ("fire", t, "v"|"e").  Returns (name, plain, prepared action | None)."""
+    pid_of[name] = pid
+    if isinstance(b, tuple) and b[0] == "do":
+        a = b[2]
+        if a[0] == "add":
+            a = ("add", a[1], a[2], _item(name + "/a", a[2], a[3], a[4], pid_of))
+        elif a[0] == "fire":
+            a = ("fire", a[1], a[2], name + "/f")
+        return (name, b[1], a)
+    return (name, b, None)
+
+
+def _item(pid, kind, bc, be, pid_of):
+    if kind == "cb":
+        return (pid, _spec(pid, bc, pid_of, pid), None)
+    if kind == "eb":
+        return (pid, None, _spec(pid, be, pid_of, pid))
+    if kind == "both":
+        sp = _spec(pid, bc, pid_of, pid)
+        return (pid, sp, sp)
+    return (pid, _spec(pid + ".c", bc, pid_of, pid), _spec(pid + ".e", be, pid_of, pid))
+
+
 def prepare(nd, ops):
-    """Attach ids: returns internal ops
-    add: ("add", d, kind, behc, behe, item) with item = (pid, cspec, espec); fire: ("fire", d, "v"|"e", id)."""
+    """Attach ids: returns (internal ops, callback name -> pair id)
+    add: ("add", d, kind, behc, behe, item) with item = (pid, cspec, espec), spec = (name, behaviour, action);
+    fire: ("fire", d, "v"|"e", id); chain: ("chain", d, e)."""
     out = []
+    pid_of = {}
     for n, o in enumerate(ops):
+        o = _tup(o)
         if o[0] == "add":
             _, d, kind, bc, be = o
-            bc = tuple(bc) if isinstance(bc, list) else bc
-            be = tuple(be) if isinstance(be, list) else be
-            pid = "c%d" % n
-            if kind == "cb":
-                item = (pid, (pid, bc), None)
-            elif kind == "eb":
-                item = (pid, None, (pid, be))
-            elif kind == "both":
-                item = (pid, (pid, bc), (pid, bc))
-            else:
-                item = (pid, (pid + ".c", bc), (pid + ".e", be))
-            out.append(("add", d, kind, bc, be, item))
+            out.append(("add", d, kind, bc, be, _item("c%d" % n, kind, bc, be, pid_of)))
         elif o[0] == "fire":
             out.append(("fire", o[1], o[2], "f%d" % n))
+        elif o[0] == "chain":
+            out.append(("chain", o[1], o[2]))
         else:
             out.append((o[0], o[1]))
-    return out
+    return out, pid_of
 
 
 class _Real:
     """The same program on real Deferreds; observations only."""
 
-    def __init__(self, nd, subs):
-        from twisted.internet.defer import Deferred
+    def __init__(self, nd, subs, skips=()):
+        from twisted.internet.defer import AlreadyCalledError, Deferred
         from twisted.python.failure import Failure
 
+        self.ACE = AlreadyCalledError
+        self.skips = skips
+        self.add_order = {}   # pair id -> (deferred index, position among the adds to that Deferred)
+        self.nadds = [0] * nd
         self.Failure = Failure
         self.Deferred = Deferred
         self.ds = [Deferred() for _ in range(nd)]
@@ -249,18 +375,36 @@ class _Real:
             return ("V", x.k)
         if isinstance(x, self.Failure):
             v = x.value
-            return ("F", v.k) if type(v) is _E else ("F?", repr(v)[:80])
+            if type(v) is _E:
+                return ("F", v.k)
+            return ("F", "ACE") if type(v) is self.ACE else ("F?", repr(v)[:80])
         if isinstance(x, self.Deferred):
             return ("D", self.idx.get(id(x), "?"))
         if x is NORES:
             return NORES
         return ("?", repr(x)[:80])
 
-    def mk(self, pid, name, beh):
+    def mk(self, pid, name, beh, reent=None):
         trace, rr, subs, ds, Failure = self.trace, self.rr, self.subs, self.ds, self.Failure
 
         def f(x):
             trace.append((name, rr(x)))
+            if reent is not None and name not in self.skips:
+                k, t = reent[0], ds[reent[1]]
+                if k == "add":
+                    self.add(reent[1], reent[2], reent[3])
+                elif k == "pause":
+                    t.pause()
+                elif k == "unpause":
+                    t.unpause()
+                else:
+                    try:
+                        if reent[2] == "v":
+                            t.callback(_V(reent[3]))
+                        else:
+                            t.errback(_E(reent[3]))
+                    except self.ACE:
+                        trace.append((name + "!", "ACE"))
             if name in subs:
                 return _V(subs[name])
             if beh == "val":
@@ -276,18 +420,26 @@ class _Real:
         f._vf_pid = pid
         return f
 
+    def add(self, di, kind, item):
+        d = self.ds[di]
+        pid, cs, es = item
+        self.add_order[pid] = (di, self.nadds[di])
+        self.nadds[di] += 1
+        if kind == "cb":
+            d.addCallback(self.mk(pid, *cs))
+        elif kind == "eb":
+            d.addErrback(self.mk(pid, *es))
+        elif kind == "both":
+            d.addBoth(self.mk(pid, *cs))
+        else:
+            d.addCallbacks(self.mk(pid, *cs), self.mk(pid, *es))
+
     def op(self, o):
         k, d = o[0], self.ds[o[1]]
         if k == "add":
-            kind, (pid, cs, es) = o[2], o[5]
-            if kind == "cb":
-                d.addCallback(self.mk(pid, *cs))
-            elif kind == "eb":
-                d.addErrback(self.mk(pid, *es))
-            elif kind == "both":
-                d.addBoth(self.mk(pid, *cs))
-            else:
-                d.addCallbacks(self.mk(pid, *cs), self.mk(pid, *es))
+            self.add(o[1], o[2], o[5])
+        elif k == "chain":
+            d.chainDeferred(self.ds[o[2]])
         elif k == "pause":
             d.pause()
         elif k == "unpause":
@@ -327,17 +479,17 @@ class _E(Exception):
 
 def check_program(ctx, nd, ops, origin):
     """Run one program on model and real; report at most one violation.  Returns model stats."""
-    prog = prepare(nd, ops)
+    prog, pid_of = prepare(nd, ops)
     m = Model(nd)
-    msnaps, mlens, mtouch, mph = [], [], [], []
+    msnaps, mlens, mtouch, mph, mexp = [], [], [], [], []
     for o in prog:
-        m.op(o)
+        mexp.append(m.op(o))
         msnaps.append(m.snap())
         mlens.append(len(m.trace))
         mtouch.append(m.touch)
         mph.append(m.paused_handovers)
     st = m.st
-    real = _Real(nd, m.subs)
+    real = _Real(nd, m.subs, m.skips)
     ctx.evaluated()
     ctx.count("callback_events_compared", len(m.trace))
     ctx.count("chain_waits", st["waits"])
@@ -349,11 +501,16 @@ def check_program(ctx, nd, ops, origin):
     ctx.count("substituted_reentrant", st["sub_inchain"])
     ctx.count("model_handover_to_paused", sum(mph))
     ctx.maxi("model_nesting_depth", st["depth"])
-    if st["waits"] or st["taken"]:
+    if origin[0] == "r" and origin[1] == "e":  # the re-entrant family
+        for k in ("act_add_own", "act_add_other", "act_pause", "act_unpause", "act_fire", "act_ace", "act_skipped",
+                  "act_nested_runs", "chain_fired", "chain_ace", "top_ace", "top_skipped"):
+            if st[k]:
+                ctx.count("re_" + k, st[k])
+    if st["waits"] or st["taken"] or st["act_nested_runs"] or st["act_add_own"] or st["chain_fired"]:
         ctx.count("nontrivial_programs")
         # enumerated programs are distinct by construction; only the first 30000 per shard are also
         # hashed into the distinct set (16 shards x millions of hashes would not fit the parent)
-        if not origin.startswith("exh") or ctx.counters["nontrivial_programs"] <= 30000:
+        if "exhaustive" not in origin or ctx.counters["nontrivial_programs"] <= 30000:
             ctx.distinct((nd, ops))
 
     def witness(t, **kw):
@@ -364,13 +521,21 @@ def check_program(ctx, nd, ops, origin):
 
     prev = 0
     for t, o in enumerate(prog):
+        raised = None
         try:
-            real.op(o)
+            if mexp[t] != "skip":
+                real.op(o)
         except BaseException as e:  # noqa: B036 - anything escaping an API call is a finding
             if isinstance(e, (KeyboardInterrupt, SystemExit)):
                 raise
-            ctx.violation("unexpected-exception", "an operation on a Deferred raised %s" % type(e).__name__,
-                          witness(t, exception=repr(e)[:300]))
+            raised = e
+        if (mexp[t] == "ACE") != isinstance(raised, real.ACE) or (raised is not None and not isinstance(raised, real.ACE)):
+            if mexp[t] == "ACE" and raised is None:
+                ctx.violation("second-result-accepted", "callback/errback on an already fired Deferred did not raise AlreadyCalledError",
+                              witness(t))
+            else:
+                ctx.violation("unexpected-exception", "an operation on a Deferred raised %s" % type(raised).__name__,
+                              witness(t, exception=repr(raised)[:300]))
             return st
         ctx.count("ops_compared")
         rtr = real.trace
@@ -381,15 +546,13 @@ def check_program(ctx, nd, ops, origin):
             prev = mlens[t]
             continue
         # ---- divergence: direct statement checks first, then classification
-        names = [n for n, _ in rtr]
-        pids = [n.split(".")[0] for n in names]
+        pids = [pid_of.get(n, n) for n, _ in rtr if not n.endswith("!")]
         if len(set(pids)) != len(pids):
             ctx.violation("callback-ran-twice", "a callback pair ran more than once", witness(t))
             return st
-        owner = {p[5][0]: p[1] for p in prog if p[0] == "add"}
         last = {}
         for p in pids:
-            dno, n = owner.get(p), int(p[1:])
+            dno, n = real.add_order.get(p, (None, 0))
             if last.get(dno, -1) > n:
                 ctx.violation("callback-order", "callbacks of one Deferred ran out of the order they were added", witness(t))
                 return st
@@ -421,6 +584,10 @@ def check_program(ctx, nd, ops, origin):
 # ------------------------------------------------------------------------------------------------
 ALPHA_S = {"kinds": ("cb",), "behs": ("val", "ret"), "fires": ("v",)}
 ALPHA_F = {"kinds": ("cb", "eb", "both"), "behs": ("val", "fail", "ret"), "fires": ("v", "e")}
+# re-entrant alphabet: callbacks that add a callback to their own (running) Deferred or to another one, or fire
+# another Deferred (possibly already fired -> AlreadyCalledError inside the callback); chainDeferred; firing an
+# already fired Deferred from the top level
+ALPHA_R = {"kinds": ("cb",), "behs": ("val", "ret", "do-addown", "do-addother", "do-fire"), "fires": ("v",), "reent": True}
 
 
 def enum_programs(nd, nops, alpha, owns, shard_depth=4):
@@ -440,7 +607,7 @@ def enum_programs(nd, nops, alpha, owns, shard_depth=4):
             counter[0] += 1
             if not owns(counter[0]):
                 return
-        lastop = depth == nops - 1
+        lastop = depth == nops - 1 and not alpha.get("reent")
         top = min(m, nd - 1)
         for t in range(top + 1):
             m1 = max(m, t + 1)
@@ -448,11 +615,16 @@ def enum_programs(nd, nops, alpha, owns, shard_depth=4):
             if not lastop or fired[t]:
                 for kind in alpha["kinds"]:
                     for beh in alpha["behs"]:
-                        if beh == "ret":
+                        if beh == "do-addown":
+                            ops.append(("add", t, kind, ("do", "val", ("add", t, "cb", "val", None)), None))
+                            yield from rec(m1)
+                            ops.pop()
+                        elif beh in ("ret", "do-addother", "do-fire"):
                             for j in range(min(m1, nd - 1) + 1):
                                 if j == t:
                                     continue
-                                b = ("ret", j)
+                                b = (("ret", j) if beh == "ret" else ("do", "val", ("fire", j, "v")) if beh == "do-fire"
+                                     else ("do", "val", ("add", j, "cb", "val", None)))
                                 ops.append(("add", t, kind, b if kind != "eb" else None, b if kind == "eb" else None))
                                 yield from rec(max(m1, j + 1))
                                 ops.pop()
@@ -472,13 +644,20 @@ def enum_programs(nd, nops, alpha, owns, shard_depth=4):
                 yield from rec(m1)
                 ops.pop()
                 upause[t] += 1
-            if not fired[t]:
+            if not fired[t] or alpha.get("reent"):
+                was = fired[t]
                 fired[t] = True
                 for fk in alpha["fires"]:
                     ops.append(("fire", t, fk))
                     yield from rec(m1)
                     ops.pop()
-                fired[t] = False
+                fired[t] = was
+            if alpha.get("reent"):
+                for j in range(min(m1, nd - 1) + 1):
+                    if j != t:
+                        ops.append(("chain", t, j))
+                        yield from rec(max(m1, j + 1))
+                        ops.pop()
 
     yield from rec(0)
 
@@ -538,8 +717,80 @@ def random_program(rng, big):
     return nd, ops
 
 
-def _tolists(ops):
-    return [[list(x) if isinstance(x, tuple) else x for x in o] for o in ops]
+def random_reentrant(rng):
+    """Programs whose callbacks also act: addCallbacks on their own running Deferred or on another one,
+    pause/unpause/fire another Deferred; plus chainDeferred and firing already fired Deferreds."""
+    nd = rng.choice((2, 3, 3, 4, 5))
+    nops = rng.randint(5, 14)
+    pret = rng.choice((0.15, 0.3, 0.45))
+    pact = rng.choice((0.3, 0.5, 0.7))
+
+    def plain(t):
+        x = rng.random()
+        if x < pret:
+            j = rng.randrange(nd - 1)
+            return ("ret", j if j < t else j + 1)
+        x = rng.random()
+        if x < 0.25:
+            return rng.choice(("raise", "fail"))
+        return "pass" if x > 0.85 else "val"
+
+    def pair(t, depth):
+        kind = rng.choice(("cb", "cb", "eb", "both", "both", "cbs"))
+        if kind == "cb" or kind == "both":
+            return kind, beh(t, depth), None
+        if kind == "eb":
+            return kind, None, beh(t, depth)
+        return kind, beh(t, depth), beh(t, depth)
+
+    def action(t, depth):
+        x = rng.random()
+        if x < 0.45:
+            tt = t if rng.random() < 0.55 else rng.randrange(nd)
+            kind, bc, be = pair(tt, depth + 1)
+            return ("add", tt, kind, bc, be)
+        if x < 0.57:
+            return ("pause", rng.randrange(nd))
+        if x < 0.69:
+            return ("unpause", rng.randrange(nd))
+        return ("fire", rng.randrange(nd), "e" if rng.random() < 0.3 else "v")
+
+    def beh(t, depth):
+        b = plain(t)
+        if depth < 2 and rng.random() < pact:
+            return ("do", b, action(t, depth))
+        return b
+
+    fired = [False] * nd
+    ops = []
+    for _ in range(nops):
+        t = rng.randrange(nd)
+        x = rng.random()
+        if x < 0.45:
+            kind, bc, be = pair(t, 0)
+            ops.append(("add", t, kind, bc, be))
+        elif x < 0.53:
+            ops.append(("pause", t))
+        elif x < 0.61:
+            ops.append(("unpause", t))
+        elif x < 0.72 and nd > 1:
+            j = rng.randrange(nd - 1)
+            ops.append(("chain", t, j if j < t else j + 1))
+        else:
+            c = [i for i in range(nd) if not fired[i]]
+            if c and rng.random() < 0.85:
+                t = rng.choice(c)
+            fired[t] = True
+            ops.append(("fire", t, "e" if rng.random() < 0.3 else "v"))
+    if rng.random() < 0.4:
+        tail = [("fire", i, "v") for i in range(nd) if not fired[i]] + [("unpause", i) for i in range(nd)]
+        rng.shuffle(tail)
+        ops.extend(tail)
+    return nd, ops
+
+
+def _tolists(x):
+    return [_tolists(y) for y in x] if isinstance(x, (list, tuple)) else x
 
 
 _LOGGED = {}
@@ -572,32 +823,30 @@ def run(ctx):
         ctx.inconclusive("Deferred.debug is on; the check expects the default (off)")
         return
     # (nd, nops, alphabet name) - complete spaces per tier
-    if ctx.quick:
-        spaces = [(2, 6, "S"), (3, 5, "S"), (4, 5, "S"), (2, 4, "F"), (3, 4, "F")]
+    if ctx.quick or float(os.environ.get("VERIF_SCALE", "1")) < 1:  # smoke runs use the quick spaces
+        spaces = [(2, 6, "S"), (3, 5, "S"), (4, 5, "S"), (2, 4, "F"), (3, 4, "F"), (2, 4, "R"), (3, 3, "R")]
     else:
-        spaces = [(2, 8, "S"), (3, 6, "S"), (4, 6, "S"), (2, 5, "F"), (3, 4, "F"), (4, 4, "F")]
-    if float(os.environ.get("VERIF_SCALE", "1")) < 1:  # smoke runs only
-        spaces = [(2, 4, "S"), (2, 3, "F")]
-        ctx.exhaustive = False
+        spaces = [(2, 8, "S"), (3, 6, "S"), (4, 6, "S"), (2, 5, "F"), (3, 4, "F"), (4, 4, "F"), (2, 5, "R"), (3, 4, "R")]
     ctx.extra["spaces"] = ["%d Deferreds, %d ops, alphabet %s" % s for s in spaces]
     gc_every = 2000
     n = 0
     for nd, nops, an in spaces:
-        alpha = ALPHA_S if an == "S" else ALPHA_F
+        alpha = {"S": ALPHA_S, "F": ALPHA_F, "R": ALPHA_R}[an]
         cnt = 0
+        origin = ("re-entrant exhaustive %d/%d" if an == "R" else "exhaustive " + an + " %d/%d") % (nd, nops)
         for ops in enum_programs(nd, nops, alpha, ctx.owns):
-            check_program(ctx, nd, ops, "exhaustive %s %d/%d" % (an, nd, nops))
+            check_program(ctx, nd, ops, origin)
             cnt += 1
             n += 1
             if n % gc_every == 0:
                 gc.collect()
-            if cnt <= 1:
+            if cnt <= 1 and an != "F":
                 ctx.sample({"space": (nd, nops, an), "ops": _tolists(ops)})
         ctx.count("exhaustive_programs", cnt)
         ctx.count("exhaustive_%s_%dd_%dops" % (an, nd, nops), cnt)
     if ctx.exhaustive is None:
         ctx.exhaustive = True
-    for i in ctx.cases(40000, 1000000):
+    for i in ctx.cases(30000, 1000000):
         rng = ctx.case_rng("rand", i)
         nd, ops = random_program(rng, big=(i % 2 == 0))
         st = check_program(ctx, nd, ops, "random case %d" % i)
@@ -608,6 +857,16 @@ def run(ctx):
             gc.collect()
         if i < ctx.nshards:
             ctx.sample({"case": i, "nd": nd, "ops": _tolists(ops), "model_stats": st})
+    for i in ctx.cases(24000, 600000):
+        rng = ctx.case_rng("reent", i)
+        nd, ops = random_reentrant(rng)
+        st = check_program(ctx, nd, ops, "re-entrant random case %d" % i)
+        ctx.count("reentrant_random_programs")
+        n += 1
+        if n % gc_every == 0:
+            gc.collect()
+        if i < ctx.nshards:
+            ctx.sample({"reentrant_case": i, "nd": nd, "ops": _tolists(ops), "model_stats": {k: v for k, v in st.items() if v}})
     gc.collect()
     for k, v in _LOGGED.items():
         if k != "on":
@@ -617,6 +876,6 @@ def run(ctx):
 
 def replay(ctx, w):
     x = w["witness"]
-    ops = [tuple(tuple(a) if isinstance(a, list) else a for a in o) for o in x["ops"]]
+    ops = [_tup(o) for o in x["ops"]]
     _begin_logging()
     check_program(ctx, x["nd"], ops, "replay")
